@@ -198,6 +198,11 @@ class Tr:
                 if ta == tb == "R":
                     return "(R%s %s %s)" % (f, a, b), "R"
             err(node, "min/max")
+        if f in ("abs", "np.abs") and len(args) == 1 and not kws:
+            a, ta = self.expr(args[0])
+            if ta == "R":
+                return "(Rabs %s)" % a, "R"
+            err(node, "abs of %s" % ta)
         if f == "np.sign" and len(args) == 1 and not kws:
             a, ta = self.expr(args[0])
             if ta == "R":
@@ -265,6 +270,18 @@ class Tr:
 
     # ---- statements ----------------------------------------------------------------
     def store(self, target, val, ty):
+        if isinstance(target, ast.Subscript) and const_value(target.slice) == -1 and \
+                self.lv(target.value) in self.state:
+            g, setter, sty = self.state[self.lv(target.value)]
+            if setter is None or not sty.startswith("list"):
+                err(target, "element store")
+            if sty == "listP" and ty == "R":
+                val, ty = "(Some %s)" % val, "optR"
+            if LIST_OF.get(ty) != sty:
+                err(target, "stores %s into an element of %s" % (ty, sty))
+            # numpy: X[-1] = v overwrites the last element (IndexError on an empty array; the
+            # model keeps the convention removelast [] ++ [v], theorems require non-empty)
+            return "let st := %s in\n" % (setter % ("(removelast %s ++ [%s])" % (g, val)))
         key = self.lv(target)
         if key not in self.state:
             err(target, "assignment target")
@@ -298,6 +315,10 @@ class Tr:
             if brk is None:
                 err(st, "break outside a translated loop")
             return brk
+        if isinstance(st, ast.Continue):
+            if brk is None:
+                err(st, "continue outside a translated loop")
+            return "(st, false)"
         if isinstance(st, ast.AugAssign):
             st = ast.Assign(targets=[st.target], value=ast.BinOp(
                 left=ast.parse(ast.unparse(st.target), mode="eval").body, op=st.op,
@@ -324,7 +345,8 @@ class Tr:
                 return "let '(%s) := %s in\n%s%s" % (", ".join(names), v, post,
                                                     self.block(rest, k, brk))
             v, ty = self.expr(st.value)
-            if self.lv(tg) in self.state:
+            if self.lv(tg) in self.state or (isinstance(tg, ast.Subscript) and
+                                             self.lv(tg.value) in self.state):
                 return self.store(tg, v, ty) + self.block(rest, k, brk)
             if isinstance(tg, ast.Name):
                 nm = self.new(tg.id)
@@ -333,7 +355,8 @@ class Tr:
             err(st, "assignment target")
         if isinstance(st, ast.If):
             t = self.test(st.test)
-            if _has(st, ast.Break) or _has(st, ast.Return) or _has(st, ast.Raise):
+            if _has(st, ast.Break) or _has(st, ast.Return) or _has(st, ast.Raise) or \
+                    _has(st, ast.Continue):
                 a = self.child().block(st.body + rest, k, brk)
                 b = self.child().block(st.orelse + rest, k, brk)
                 return "if %s then (\n%s) else (\n%s)" % (t, a, b)
